@@ -624,6 +624,13 @@ OBLIGATIONS.append(k2("token.duplicate_member", _k2h("react::reaction_trigger", 
                       "the token names a repeated trigger once per member (registration stores one handle per member, so a shorter "
                       "token would leave a registration behind after the revoke)",
                       witness=[["revoke_dup", "once_duplicate"]]))
+OBLIGATIONS.append(k2("token.reactor_types_duplicates", _k2h("react::reaction_trigger", "reactor_types_keep_duplicates"), ["C06", "C15", "C16"],
+                      ["get_reactor_types", "ReactionTriggerBundle::collect_reactor_types", "ReactionTrigger::reactor_type"],
+                      ["src/react/reaction_trigger.rs", "src/react/reaction_triggers_impl.rs"],
+                      "a three-member bundle repeating a broadcast trigger around a resource trigger; a two-member bundle repeating a despawn trigger",
+                      "the list a token is built from has one entry per bundle member, repeated triggers included, in bundle order (decided "
+                      "on get_reactor_types itself: a list whose length depends on comparisons would make the token's Arc<[..]> allocation "
+                      "symbolic, see P14)", witness=[["revoke_dup", "once_duplicate"]]))
 OBLIGATIONS.append(k2("once.mode", _k2h("react::react_commands", "once_registers_in_a_refcounted_mode"), ["C15", "C07"],
                       ["ReactCommands::once", "ReactCommandsExt::syscall_with_validation (deferred)", "syscall_with_validation", "validate_rc"],
                       ["src/react/react_commands.rs", "src/ecs/syscall.rs"],
@@ -872,7 +879,7 @@ _QUICK_ONLY_FOR = {
     "cmd.apply_reaction_broadcast": ["C05", "C18"],
     "cmd.pair_broadcast_event": ["C05"], "cmd.pair_system_event": ["C04"], "cmd.pair_despawn_reaction": ["C07"],
     "rc.register_broadcast_2_1": ["C01"], "rc.register_mutation_1_1_1": ["C15"], "rc.register_despawn_by_entity": ["C08"], "entry.broadcast": ["C14"], "syscall.named_nested": ["C17"],
-    "register.two_triggers": ["C15"], "register.empty_bundle": ["C15"], "token.every_member": ["C06", "C15", "C16"],
+    "register.two_triggers": ["C15"], "register.empty_bundle": ["C15"], "token.every_member": ["C06", "C15", "C16"], "token.reactor_types_duplicates": ["C06", "C15"],
 }
 
 
